@@ -75,14 +75,18 @@ retry_sem_wait:
 		}
 
 		(void)qb_thread_lock(logt_wthread_lock);
-		if (wthread_should_exit) {
-			int value = -1;
-
-			(void)sem_getvalue(&logt_print_finished, &value);
-			if (value == 0) {
-				(void)qb_thread_unlock(logt_wthread_lock);
+		if (qb_list_empty(&logt_print_finished_records)) {
+			/*
+			 * Only the token that announces the exit request
+			 * comes without a record.  Whether records are left
+			 * is what the list says: the token of the last one
+			 * may have been taken before the request was made.
+			 */
+			(void)qb_thread_unlock(logt_wthread_lock);
+			if (wthread_should_exit) {
 				pthread_exit(NULL);
 			}
+			continue;
 		}
 
 		rec =
